@@ -205,6 +205,10 @@ HEADER = ("(* GENERATED on every run by vlib/translate.py from the current sourc
 #                             is `false` / `p' != 0`, arithmetic uses p' -- and arithmetic on a value not known to be
 #                             non-None (Python: TypeError) is Unsupported.  Strings the plugin encodes as Z with "" = 0
 #                             have the same truthiness.
+#                    "optobj" None or an object with default truthiness (no __bool__/__len__: a Device): the parameter
+#                             is the bool "is not None"; only truthiness and `is None` are translated
+#                    "optref" None or any object (a dict, whose truthiness is its non-emptiness): the parameter is the
+#                             bool "is not None"; only `is None` / `is not None` are translated
 #                    "len"    a collection only its length is read of: `len(x)` is the parameter (Z), truthiness of
 #                             `x` is `p != 0`; any other use is Unsupported
 #            a 4th component "volatile" marks a read an effect may change: reading it after any effect that does
@@ -215,7 +219,7 @@ HEADER = ("(* GENERATED on every run by vlib/translate.py from the current sourc
 #                                  constructor (applied to the translated holes) is appended to the effect list, so
 #                                  the definition returns the effects IN PROGRAM ORDER; a pattern may be any statement
 #                                  (a whole `try: x.remove(y) / except ValueError: pass`); a pattern that is a
-#                                  `return <call>` ends the path (tail call; the function is declared ret="unit")
+#                                  `return <call>` or a `raise ...` ends the path (the function is declared ret="unit")
 #   draws    [(python expression, parameter, type, constructor)]
 #                                  `name = <expression>` consuming an outside value (random.uniform(0, 1)): the value
 #                                  is the parameter, the constructor is appended to the effects; at most once per path
@@ -300,7 +304,8 @@ class FnSpec:
         self.draws, self.ret, self.ignore_calls = list(draws), ret, set(ignore_calls)
 
 
-COQ_TY = {"Z": "Z", "Q": "Q", "bool": "bool", "optZ": "option Z", "optQ": "option Q", "len": "Z"}
+COQ_TY = {"Z": "Z", "Q": "Q", "bool": "bool", "optZ": "option Z", "optQ": "option Q", "len": "Z", "optobj": "bool",
+          "optref": "bool"}
 
 
 class FxTr:
@@ -372,6 +377,9 @@ class FxTr:
                 return V(env["known"][p], ty[3:])
             if ty == "len":
                 raise Unsupported(f"the collection behind {p} is used other than through len()/truthiness")
+            if ty in ("optobj", "optref"):
+                raise Unsupported(f"the object behind {p} is used other than through " +
+                                  ("truthiness / " if ty == "optobj" else "") + "`is None`")
             return V(p, ty)
         if isinstance(e, ast.Constant):
             if isinstance(e.value, bool):
@@ -442,13 +450,17 @@ class FxTr:
         if rd0 is not None and rd0[1] == "bool":
             return rd0[0]
         if isinstance(e, ast.Compare):
-            if len(e.ops) != 1:
-                raise Unsupported("chained comparison")
+            if len(e.ops) != 1:                      # a < b < c  =  a < b and b < c  (b is pure: evaluated once or twice alike)
+                terms = [e.left] + list(e.comparators)
+                return self.cond(ast.BoolOp(op=ast.And(), values=[
+                    ast.Compare(left=terms[i], ops=[e.ops[i]], comparators=[terms[i + 1]]) for i in range(len(e.ops))]), env)
             l, r, op = e.left, e.comparators[0], type(e.ops[0])
             if op in (ast.Is, ast.IsNot):
                 if not _is_none_const(r):
-                    raise Unsupported("`is` against something other than None (list it as an observation)")
+                    raise Unsupported("`is` against something other than None (list the comparison as an observation)")
                 rd = self.read(l, env)
+                if rd is not None and rd[1] in ("optobj", "optref"):
+                    return f"(negb {rd[0]})" if op is ast.Is else rd[0]
                 if rd is None or rd[1] not in ("optZ", "optQ"):
                     raise Unsupported(f"`{ast.unparse(l)} is None` on something that is not an option observation")
                 if rd[0] not in env["known"]:
@@ -493,6 +505,8 @@ class FxTr:
                 raise Unsupported(f"observation {p} is read after an effect that may have changed it")
             return f"(negb (Z.eqb {p} 0))"
         rd = self.read(e, env)
+        if rd is not None and rd[1] == "optobj":
+            return rd[0]
         if rd is not None and rd[1] in ("optZ", "optQ"):
             if rd[0] not in env["known"]:
                 raise Unsupported(f"truthiness of {rd[0]} outside the test of an if statement")
@@ -580,9 +594,9 @@ class FxTr:
         s, rest = stmts[0], stmts[1:]
         env2 = self.effect(s, env)
         if env2 is not None:
-            if isinstance(s, ast.Return):            # a listed tail call (`return super()._do_put(event)`) ends the path
-                if self.spec.ret != "unit":
-                    raise Unsupported("a listed `return <call>` needs ret='unit' (the call's value is the result)")
+            if isinstance(s, (ast.Return, ast.Raise)):   # a listed tail call (`return super()._do_put(event)`) or a
+                if self.spec.ret != "unit":              # listed `raise ...` ends the path
+                    raise Unsupported("a listed `return <call>` / `raise` needs ret='unit' (the effect list is the result)")
                 return k(env2, None)
             return self.block(rest, env2, k)
         if isinstance(s, ast.Pass):
@@ -650,7 +664,7 @@ class FxTr:
 
     def do_if(self, s, rest, env, k):
         # an `if` with a return inside, or the last statement of the body: the rest is translated inside the branches
-        joinable = bool(rest) and not any(isinstance(n, ast.Return) for n in ast.walk(s))
+        joinable = bool(rest) and not any(isinstance(n, (ast.Return, ast.Raise)) for n in ast.walk(s))
         unk = self.option_params(s.test, env)
         if unk:
             p = unk[0]
